@@ -285,6 +285,13 @@ func (r *Runner) resolveCallExpression(ctx context.Context, expr *CallExpression
 	if funType == nil || funType.Kind() != reflect.Func {
 		return nil, fmt.Errorf("expr %s value not is function", name)
 	}
+	// the function must return (value, error)
+	if funType.NumOut() != 2 {
+		return nil, fmt.Errorf("call function '%s' error: must return tow value but got %d", name, funType.NumOut())
+	}
+	if !funType.Out(1).Implements(reflect.TypeOf((*error)(nil)).Elem()) {
+		return nil, fmt.Errorf("call function '%s' error: second return value must be an error but is %v", name, funType.Out(1))
+	}
 	hasVariadic := hasVariadicParameter(funType)
 	// (...)可用性检查
 	if expr.DotDotDotToken != nil && !hasVariadic {
@@ -345,9 +352,6 @@ func (r *Runner) resolveCallExpression(ctx context.Context, expr *CallExpression
 	}
 	// 调用函数
 	results := reflect.ValueOf(fun).Call(callArgs)
-	if len(results) != 2 {
-		return nil, fmt.Errorf("call function '%s' error: must return tow value but got %d", name, len(results))
-	}
 	if !results[1].IsNil() {
 		err = results[1].Interface().(error)
 		err = fmt.Errorf("call function '%s' error: %s", name, err.Error())
